@@ -79,7 +79,11 @@ def step (_ : Unit) (w : List String) : Unit × String :=
       | some P => ((), parseOut P g bs)
       | none => ((), "unknown-pair")
     | _, _ => ((), "bad-op")
-  | "pgnlist" :: _ => ((), "no-layout")   -- PGN 126464: repeated field, outside the layout language (C15 oracle only)
+  | "pgnlist" :: _ => ((), "no-layout")
+  | "sat" :: _ => ((), "no-layout")    -- repeated-record PGNs (Append… builders, loops): direct oracle of the C05 harness only
+  | "wp" :: _ => ((), "no-layout")
+  | "pgns" :: _ => ((), "no-layout")
+  | "bank" :: _ => ((), "no-layout")   -- PGN 126464: repeated field, outside the layout language (C15 oracle only)
   | _ => ((), "bad-op")
 
 def main : IO Unit := loop step ()
